@@ -186,7 +186,7 @@ def run(chk):
     tasks = [("w_write_grid", ())]
     for lo, hi in harness.chunks(n_specs, 15):
         tasks.append(("w_grid", (lo, hi)))
-    n_rand = 6000 if quick else 100000
+    n_rand = 24000 if quick else 200000
     shards = 16 if quick else 64
     for s in range(shards):
         tasks.append(("w_random", (n_rand // shards, harness.seed_for(chk.seed, PROP, s))))
